@@ -127,7 +127,7 @@ func (C19) Generate(c *Ctx, r *Rand, index int) *Scenario {
 		opts.Big = rs.Chance(1, 3)
 		if opts.Big {
 			e = Expr{S: Pick(rs, []string{".", ".", ".pad", "[.pad, .id]", ".pad | length"})}
-			for _, f := range []string{"-N", "-0", "-r", "-e"} {
+			for _, f := range []string{"-N", "-0", "-r", "-e", "-C", "-C"} {
 				if rs.Chance(1, 5) {
 					argv = append(argv, f)
 				}
@@ -139,9 +139,13 @@ func (C19) Generate(c *Ctx, r *Rand, index int) *Scenario {
 		_, ob := prerun()
 		if ob > 0 {
 			k := biasedOffset(rf, ob-1)
-			sc.Plan.Writers = []WriterPlan{{Stream: "out", FailAt: k, Errno: Pick(rf, []string{"ENOSPC", "EIO", "EDQUOT"}), KillAt: -1}}
+			sc.Plan.Writers = []WriterPlan{{Stream: "out", FailAt: k, Errno: Pick(rf, []string{"ENOSPC", "EIO", "EDQUOT", "EAGAIN", "EINTR", "EPIPE", "EFBIG"}), KillAt: -1}}
 		}
 	case "devfull":
+		opts.Big = rs.Chance(1, 3)
+		if opts.Big {
+			e = Expr{S: Pick(rs, []string{".", ".pad", "[.pad, .id]"})}
+		}
 		sc.Files = GenMultiFiles(r.Fork("files"), opts)
 		addOut()
 		finish(e.Combined())
